@@ -738,7 +738,7 @@ def _entry_points(ctx, obj, path, c, src, ids, exp, alt, desc, hist, reqs=None, 
 
 
 # ------------------------------------------------------------------------------------------- one case
-def run_case(ctx, c, reqs, pending, paths=('memory', 'eager', 'lazy')):
+def run_case(ctx, c, reqs, pending, paths=('memory', 'eager', 'lazy'), light=False):
     import highdicom as hd
     import pydicom
     mask, applied = build_mask(c)
@@ -902,7 +902,7 @@ def run_case(ctx, c, reqs, pending, paths=('memory', 'eager', 'lazy')):
                     if got.shape == want.shape else 'shape'
                 ctx.fail(case, {'what': 'read-back differs from the mask passed in', 'shape_got': list(got.shape),
                                 'shape_want': list(want.shape), 'first_diffs': bad}, site=f'read/{path}')
-            if path == 'memory':
+            if path == 'memory' and not (light and oname != 'supplied'):
                 reqs.append(('roundtrip', dict(margs, request=order, allow_missing=True)))
                 pending.append((case, 'read', None,
                                 got.astype(np.int64).transpose(0, 3, 1, 2).reshape(len(order), -1, n).tolist()
@@ -978,7 +978,7 @@ def run_case(ctx, c, reqs, pending, paths=('memory', 'eager', 'lazy')):
                     if ok is False and must_succeed:
                         ctx.fail(scase, 'strict read refused although every requested source is known to the object',
                                  site='read-strict')
-                if path == 'memory' and ok is not None:
+                if path == 'memory' and ok is not None and not light:
                     reqs.append(('roundtrip', dict(margs, request=order, allow_missing=False,
                                                    multiframe=c['source'] == 'enhanced', nsrc=P)))
                     pending.append((scase, 'strict', ('ok', got.astype(np.int64).transpose(0, 3, 1, 2)
@@ -994,7 +994,7 @@ def run_case(ctx, c, reqs, pending, paths=('memory', 'eager', 'lazy')):
             except Exception:  # noqa: BLE001
                 pass
         if path == 'memory' or (path in ('eager', 'lazy') and (c['idx'] + len(path)) % 3 == 0):
-            _entry_points(ctx, obj, path, c, src, ids, exp, alt, desc, hist, reqs, pending, margs)
+            _entry_points(ctx, obj, path, c, src, ids, exp, alt, desc, hist, None if light else reqs, pending, margs)
     objs.clear()
     if tmpdir is not None:
         tmpdir.cleanup()
@@ -1727,34 +1727,47 @@ def _drift_factor(ctx):
 
 
 def _many_segments(ctx, reqs, pending):
-    """Masks with more than 255 described segments: label-map style uint16 input stored as BINARY and as FRACTIONAL
-    (labels above one byte must survive whatever the 8-bit output pixel type), and LABELMAP / stacked input."""
-    plans = [('BINARY', '3d', 257), ('FRACTIONAL', '3d', 300)]
+    """The segment-count dimension across the one-byte boundary: masks with 255 / 256 / 257 / 300 described segments for
+    every segmentation type (labels above one byte must survive whatever the 8-bit pixel type of BINARY / FRACTIONAL
+    frames; a LABELMAP turns 16 bit at 256), label-map style and stacked input, LABELMAP also with sparse numbers up to
+    65535 -- constructed, written, and read back per segment (the default read: one channel per requested segment)."""
+    r = ctx.rng('many/plan', 0)
+    plans = [('BINARY', '3d', 257, False), ('FRACTIONAL', '3d', r.choice([256, 300]), False),
+             ('LABELMAP', '3d', r.choice([256, 257]), False), ('LABELMAP', '3d', r.choice([255, 256, 300]), True),
+             ('LABELMAP', '4d', r.choice([256, 257]), r.random() < 0.5)]
     if ctx.tier != 'quick':
-        plans += [('LABELMAP', '3d', 300), ('BINARY', '4d', 260), ('LABELMAP', '4d', 257), ('BINARY', '3d', 300),
-                  ('FRACTIONAL', '3d', 257)]
-    for idx, (typ, layout, nseg) in enumerate(plans):
+        plans += [(t, lay, n, sp) for t in ('BINARY', 'FRACTIONAL', 'LABELMAP') for lay in ('3d', '4d') for n in (255, 256, 257, 300)
+                  for sp in ((False, True) if t == 'LABELMAP' else (False,))]
+    for idx, (typ, layout, nseg, sparse) in enumerate(plans):
         nr = ctx.np_rng('many/pix', idx)
         P, R, C = (1, 11, 29) if ctx.tier == 'quick' else (2, 11, 29)
+        if layout == '4d':
+            R, C = 4, 7                 # (a stack needs no room for every label)
+        segs = list(range(1, nseg + 1))
+        if sparse:
+            # described numbers not contiguous, not starting at 1, up to the largest a 16 bit label map can hold
+            segs = sorted(set(int(v) for v in nr.choice(np.arange(2, 65535), size=nseg - 1, replace=False)) | {65535})
         if layout == '3d':
             # every label occurs at least once (most exactly once), the rest is background / repeats
             lab = np.zeros(P * R * C, dtype=np.int64)
             pos = nr.permutation(P * R * C)
             lab[pos[:nseg]] = np.arange(1, nseg + 1)
-            lab[pos[nseg:nseg + 10]] = nr.integers(250, nseg + 1, size=min(10, len(pos) - nseg))
-            arr = lab.reshape(P, R, C)
+            lab[pos[nseg:nseg + 10]] = nr.integers(max(1, nseg - 50), nseg + 1, size=min(10, len(pos) - nseg))
+            arr = np.concatenate([[0], segs])[lab].reshape(P, R, C)
             dtype = 'uint16'
         else:
             lab = nr.integers(0, nseg + 1, size=(P, R, C))
+            lab.reshape(-1)[:4] = [nseg, nseg - 1, 255 if nseg > 255 else 1, 256 if nseg > 256 else 2]
             arr = np.stack([(lab == i + 1) for i in range(nseg)], axis=-1).astype(np.int64)
             dtype = 'uint8'
         c = {'idx': idx, 'stream': 'many', 'seed': ctx.seed, 'tier': ctx.tier, 'source': ['series', 'enhanced'][idx % 2],
              'planes': P, 'rows': R, 'cols': C, 'src_order': list(range(P))[::-1], 'type': typ, 'dtype': dtype,
-             'layout': layout, 'segs': list(range(1, nseg + 1)), 'mfv': 255, 'omit': True, 'empty': 'none',
+             'layout': layout, 'segs': segs, 'mfv': 255, 'omit': True, 'empty': 'none',
              'density': 0.8, 'ts': 'Explicit VR Little Endian', 'workers': 0, 'bad': None, 'read_perm_seed': idx,
              'mem': 'C', 'explicit': arr.tolist()}
-        run_case(ctx, c, reqs, pending, paths=('memory', 'lazy'))
-        ctx.hist('many_segments', f'{typ}/{layout}/{nseg}')
+        # (the model is asked for the object and one read-back only: its interpreter is slow on 300 channels)
+        run_case(ctx, c, reqs, pending, paths=('memory', 'lazy') if idx % 2 else ('memory', 'eager'), light=True)
+        ctx.hist('many_segments', f'{typ}/{layout}/{nseg}{"/sparse" if sparse else ""}')
 
 
 def _exhaustive_sizes(ctx, reqs, pending):
@@ -1800,8 +1813,6 @@ def streams(ctx):
     out = [('corpus', corpus), ('helpers', _helpers)]
     if not ctx.search_mode:
         out.append(('sizes', _exhaustive_sizes))
-    out.append(('many', _many_segments))
-    out.append(('tiled', _tiled))
     return out
 
 
@@ -1855,8 +1866,8 @@ def _merge(ctx, res):
 
 
 def run(ctx):
-    """The streams are spread over SHARDS + 1 forked processes (shard 0: corpus, helpers, size grid, many segments, tiled;
-    shard 1 + idx % SHARDS: the generated cases).  Every case is a pure function of (seed, stream, index) -- the sharding
+    """The streams are spread over SHARDS + 3 forked processes (corpus, helpers and size grid; many segments; tiled;
+    3 + idx % SHARDS: the generated cases).  Every case is a pure function of (seed, stream, index) -- the sharding
     only decides which process evaluates it; HDV_SHARDS=0 runs everything in this process."""
     global _SHARD_JOBS
     import warnings
@@ -1869,7 +1880,7 @@ def run(ctx):
             for idx in range(k, n_cases, SHARDS):
                 run_case(sub, gen_case(sub, idx), reqs, pending)
         return job
-    jobs = [[thunk for _n, thunk in named]] + [[case_job(k)] for k in range(SHARDS)]
+    jobs = [[thunk for _n, thunk in named], [_many_segments], [_tiled]] + [[case_job(k)] for k in range(SHARDS)]
     _SHARD_JOBS = (ctx, jobs)
     if os.environ.get('HDV_SHARDS') == '0':
         results = [_shard_main(k) for k in range(len(jobs))]
